@@ -725,6 +725,10 @@ impl Harness for C11 {
         let lattice_leaves = pl.leaves;
         let mut jobs = pl.jobs;
         jobs.sort_by_key(|j| j.0);
+        // the cheap family / offset jobs run right after the small lattice spaces (n*p <= 6), so that a
+        // run cut short by its wall budget has still covered them
+        let split = jobs.iter().position(|j| (j.0 >> 40) > 6).unwrap_or(jobs.len());
+        let mut late: Vec<Job> = jobs.split_off(split).into_iter().map(|j| j.1).collect();
         let mut jobs: Vec<Job> = jobs.into_iter().map(|j| j.1).collect();
         // ---- structured families
         for (v, real) in [(V::G, false), (V::M, false), (V::B, false), (V::B, true), (V::C, false)] {
@@ -745,6 +749,7 @@ impl Harness for C11 {
                 jobs.push(Job::new(format!("goff-n{}-k{}-off{:e}", n, k, GOFF[off]), json!({"kind": "goff", "n": n, "k": k, "off": off})));
             }
         }
+        jobs.append(&mut late);
         Plan {
             jobs,
             budget_s: if t { 2700 } else { 40 },
